@@ -132,17 +132,28 @@ pub fn c20_slice_forms() {
 
 type CR = ColumnsRegion<MirrorRegion<u8>>;
 
-// @h prop=C20 tier=quick kind=proof inst="ColumnsRegion<MirrorRegion<u8>>: &[u8], [u8;N], &[u8;N], Vec<u8>" bounds="4 steps, one form each, rows of 2 symbolic cells" desc="mixed-form history == canonical-form history"
+// @h prop=C20 tier=quick kind=proof inst="ColumnsRegion<MirrorRegion<u8>>: &[u8], [u8;N]" bounds="2 steps, one form each, rows of 2 symbolic cells" desc="mixed-form history == canonical-form history"
 #[cfg_attr(kani, kani::proof, kani::unwind(12))]
-pub fn c20_columns_forms_a() {
+pub fn c20_columns_forms_a1() {
     let mut a = CR::default();
     let mut b = CR::default();
-    let v: [[u8; 2]; 4] = core::array::from_fn(|_| sym::bytes::<2>());
+    let v: [[u8; 2]; 2] = core::array::from_fn(|_| sym::bytes::<2>());
     let _ = step!(a, b, v[0].as_slice(), v[0].as_slice());
-    let _ = step!(a, b, v[1], v[1].as_slice());
-    let i2 = step!(a, b, &v[2], v[2].as_slice());
-    let i3 = step!(a, b, v[3].to_vec(), v[3].as_slice());
-    assert!(a.index(i2).get(1) == v[2][1] && a.index(i3).get(0) == v[3][0] && a.index(i3).len() == 2, "C20: row pushed in another form reads differently");
+    let i1 = step!(a, b, v[1], v[1].as_slice());
+    assert!(a.index(i1).get(1) == v[1][1] && a.index(i1).len() == 2, "C20: row pushed in another form reads differently");
+    cover!(true, "end reached");
+    sym::forget((a, b));
+}
+
+// @h prop=C20 tier=quick kind=proof inst="ColumnsRegion<MirrorRegion<u8>>: &[u8;N], Vec<u8>" bounds="2 steps, one form each, rows of 2 symbolic cells" desc="mixed-form history == canonical-form history"
+#[cfg_attr(kani, kani::proof, kani::unwind(12))]
+pub fn c20_columns_forms_a2() {
+    let mut a = CR::default();
+    let mut b = CR::default();
+    let v: [[u8; 2]; 2] = core::array::from_fn(|_| sym::bytes::<2>());
+    let i2 = step!(a, b, &v[0], v[0].as_slice());
+    let i3 = step!(a, b, v[1].to_vec(), v[1].as_slice());
+    assert!(a.index(i2).get(1) == v[0][1] && a.index(i3).get(0) == v[1][0] && a.index(i3).len() == 2, "C20: row pushed in another form reads differently");
     cover!(true, "end reached");
     sym::forget((a, b));
 }
@@ -186,50 +197,58 @@ pub fn c20_nested_forms() {
     sym::forget((a, b, sa, sb));
 }
 
-// @h prop=C20 tier=quick kind=proof inst="SliceRegion<MirrorRegion<u8>>: the EMPTY value in the forms &[u8], Vec<u8>, [u8;0], ReadSlice (region-backed), ReadSlice (owned-borrowed), pushed onto a non-empty region" bounds="one 2-byte item, then the empty value once per form" desc="an empty value gets the same index and stores the same bytes in every form (the index of an empty item is not (0,0) on a populated region)"
+// @h prop=C20 tier=quick kind=proof inst="SliceRegion<MirrorRegion<u8>>: the EMPTY value as ReadSlice (region-backed) and ReadSlice (owned-borrowed), pushed onto a non-empty region" bounds="one 2-byte item, then the empty value once per form" desc="an empty value gets the same index in every form (the index of an empty item is not (0,0) on a populated region)"
 #[cfg_attr(kani, kani::proof, kani::unwind(12))]
-pub fn c20_slice_empty_forms() {
+pub fn c20_slice_empty_read_items() {
     let mut a = SR::default();
-    let mut b = SR::default();
     let first = sym::bytes::<2>();
     let e: [u8; 0] = [];
     let mut other = SR::default();
     let _ = other.push(first.as_slice());
     let ie = other.push(e.as_slice());
     let owned: Vec<u8> = Vec::new();
-    let _ = step!(a, b, first.as_slice(), first.as_slice());
-    let i1 = step!(a, b, e.as_slice(), e.as_slice());
-    let _ = step!(a, b, Vec::<u8>::new(), e.as_slice());
-    let _ = step!(a, b, e, e.as_slice());
-    let i4 = step!(a, b, other.index(ie), e.as_slice());
-    let i5 = step!(a, b, <SR as Region>::ReadItem::borrow_as(&owned), e.as_slice());
-    assert!(i1 == (2, 2) && i4 == (2, 2) && i5 == (2, 2), "C20: an empty item does not start at the current end of the region");
+    let _ = a.push(first.as_slice());
+    let i1 = a.push(e.as_slice());
+    let i4 = a.push(other.index(ie));
+    let i5 = a.push(<SR as Region>::ReadItem::borrow_as(&owned));
+    assert!(i1 == (2, 2) && i4 == (2, 2) && i5 == (2, 2), "C20: an empty item pushed as a read item does not get the index the slice form gets");
     assert!(a.index(i4).is_empty() && a.index(i5).len() == 0, "C20: empty item pushed as a read item is not empty");
-    let last = sym::bytes::<2>();
-    let il = step!(a, b, last.as_slice(), last.as_slice());
-    assert!(a.index(il).get(0) == last[0] && a.index(il).get(1) == last[1], "C20: item after the empty items reads differently");
     cover!(true, "end reached");
-    sym::forget((a, b, other));
+    sym::forget((a, other));
 }
 
-// @h prop=C20 tier=quick kind=proof inst="ConsecutiveIndexPairs<SliceRegion<MirrorRegion<u8>>>: empty and non-empty read items from another region" bounds="items of 2, 0, 2 symbolic bytes pushed as region-backed read items of a second region" desc="read items as input form under dense indexing: indices 0,1,2, reads equal (no panic)"
+// @h prop=C20 tier=quick kind=proof inst="SliceRegion<MirrorRegion<u8>>: the EMPTY value as Vec<u8> and [u8;0], followed by a non-empty item" bounds="one 2-byte item, the empty value in two forms, one more 2-byte item" desc="empty values in owned forms get the index the slice form gets; the following item reads correctly"
+#[cfg_attr(kani, kani::proof, kani::unwind(12))]
+pub fn c20_slice_empty_owned_forms() {
+    let mut a = SR::default();
+    let first = sym::bytes::<2>();
+    let e: [u8; 0] = [];
+    let _ = a.push(first.as_slice());
+    let i2 = a.push(Vec::<u8>::new());
+    let i3 = a.push(e);
+    assert!(i2 == (2, 2) && i3 == (2, 2), "C20: an empty item in an owned form does not start at the current end of the region");
+    let last = sym::bytes::<2>();
+    let il = a.push(last.as_slice());
+    assert!(il == (2, 4) && a.index(il).get(0) == last[0] && a.index(il).get(1) == last[1], "C20: item after the empty items reads differently");
+    cover!(true, "end reached");
+    sym::forget(a);
+}
+
+// @h prop=C20 tier=quick kind=proof inst="ConsecutiveIndexPairs<SliceRegion<MirrorRegion<u8>>>: empty and non-empty read items from another region" bounds="items of 2, 0, 2 symbolic bytes pushed as region-backed read items of a second region" desc="read items (incl. the empty one) as input form under dense indexing: indices 0,1,2, reads equal, no panic (the dense-pairs debug assertion holds)"
 #[cfg_attr(kani, kani::proof, kani::unwind(12))]
 pub fn c20_cip_slice_read_items() {
     type W = ConsecutiveIndexPairs<SR>;
     let mut src = SR::default();
     let x = sym::bytes::<2>();
-    let y = sym::bytes::<2>();
     let e: [u8; 0] = [];
     let ix = src.push(x.as_slice());
     let ie = src.push(e.as_slice());
-    let iy = src.push(y.as_slice());
     let mut a = W::default();
-    let mut b = W::default();
-    let _ = step!(a, b, src.index(ix), x.as_slice());
-    let j = step!(a, b, src.index(ie), e.as_slice());
-    let k = step!(a, b, src.index(iy), y.as_slice());
-    assert!(j == 1 && k == 2, "C20: dense indices differ when items are pushed as read items");
-    assert!(a.index(j).is_empty() && a.index(k).get(1) == y[1] && a.index(k).len() == 2, "C20: items pushed as read items read differently");
+    let i = a.push(src.index(ix));
+    let j = a.push(src.index(ie));
+    let k = a.push(src.index(ix));
+    assert!(i == 0 && j == 1 && k == 2, "C20: dense indices differ when items are pushed as read items");
+    assert!(a.index(j).is_empty() && a.index(k).get(1) == x[1] && a.index(k).len() == 2, "C20: items pushed as read items read differently");
     cover!(true, "end reached");
-    sym::forget((a, b, src));
+    sym::forget((a, src));
 }
